@@ -76,6 +76,8 @@ SpecL7 == Bounded(7)
 SpecL8 == Bounded(8)
 SpecL9 == Bounded(9)
 SpecL10 == Bounded(10)
+SpecL11 == Bounded(11)
+SpecL12 == Bounded(12)
 Level(n) == TLCGet("level") <= n
 Lvl4 == Level(4)
 Lvl5 == Level(5)
